@@ -24,7 +24,7 @@ PROFILES = ['dev']
 REPLAY_PROFILES = ['dev', 'release']
 BUDGET = 150
 FIRST_BUDGET = 300
-TIME_LIMIT = {'quick': 420, 'thorough': 3000}
+TIME_LIMIT = {'quick': 420, 'thorough': 3300}
 PREFIX_VALUES = sorted(set(U.PREFIXES.values()))
 FEW_PREFIXES = [-3, 0, 6]
 SWEEP_UNITS = ['Meter', 'KiloGram', 'Second', 'length::FOOT', 'volume::LITRE', 'units::NEWTON', 'energy::ELECTRONVOLT']
@@ -58,7 +58,7 @@ def jobs(tier, seed, report):
     if tier == 'quick': pairs = pairs[:260]
     for i in range(0, len(pairs), 10): js.append({'name': f'pair-{i}', 'kind': 'pairs', 'pairs': pairs[i:i + 10]})
     B = ul.BASIS
-    nprod = 60 if tier == 'quick' else 600
+    nprod = 60 if tier == 'quick' else 400
     shapes = []
     for _ in range(nprod):
         k = rnd.choice([2, 2, 3] if tier == 'quick' else [2, 3, 3, 4])
@@ -66,7 +66,7 @@ def jobs(tier, seed, report):
     for i in range(0, len(shapes), 4): js.append({'name': f'prod-{i}', 'kind': 'product', 'shapes': shapes[i:i + 4]})
     # the same product on both sides with a different prefix on EVERY entry of source and target
     rep = []
-    for _ in range(18 if tier == 'quick' else 200): rep.append(rnd.sample(B, 2 if tier == 'quick' else rnd.choice([2, 2, 3])))
+    for _ in range(18 if tier == 'quick' else 100): rep.append(rnd.sample(B, 2 if tier == 'quick' else rnd.choice([2, 2, 2, 3])))
     for i in range(0, len(rep), 3): js.append({'name': f'reprefix-{i}', 'kind': 'reprefix', 'shapes': rep[i:i + 3]})
     chains = []
     for d, ns in dim_classes(I, voc).items():
